@@ -647,6 +647,14 @@ move=> HT HZ Htri jk HL; rewrite !nth_autocov_square_00 //; last exact: ltnW.
 exact: (order_j_square Pam Hmm tol Sw X HT HZ Htri j HL).
 Qed.
 
+Theorem stmt_unit_root_rows_nan kk (s : 'I_kk -> 'I_(nu + ns + ny)) k j (a b : 'I_kk) : (j <= k)%N ->
+  nth (const_mx None) (getv_autocov SOL s std_w X k) j a b =
+    if loaded Zam Uam tol (s a) || loaded Zam Uam tol (s b) then None
+    else Some (acov00 k j (s a) (s b)).
+Proof.
+by move=> jk; rewrite nth_autocov_square_00 // (@masked_entries _ _ _ _ _ _ Tam Pam Zam Hmm Uam tol _ _ _ (erefl _)).
+Qed.
+
 End Statements.
 
 Section StatementsStationary.
